@@ -58,6 +58,7 @@ func execC17(hist []int, env *envdfs.Env) (viol []Viol, log string, ops int64, w
 	sim := ksim.New(env)
 	sim.NoDeviations = true
 	sim.Verdicts = []int{0, 1}
+	sim.CloseAnswers = []syscall.Errno{0, syscall.EINTR, syscall.EBADF, syscall.EIO}
 	sim.Rules = simRules(2)
 	c := &libaudit.AuditClient{Netlink: sim}
 	fail := func(sig, format string, a ...interface{}) {
@@ -215,11 +216,15 @@ func execC17(hist []int, env *envdfs.Env) (viol []Viol, log string, ops int64, w
 				if !usedPID && nClear != 0 {
 					fail("C17 close-pid-clear-spurious", "SetPID was never used but Close cleared the audit PID")
 				}
-				if nClear == 1 && len(sim.Log) > 0 && sim.Log[len(sim.Log)-1] != "close" {
+				if nClear == 1 && len(sim.Log) > 1 && sim.Log[len(sim.Log)-1] != "close" && sim.Log[len(sim.Log)-2] != "close" {
 					fail("C17 close-order", "PID clear not sent before the socket was closed")
 				}
-				if err != nil {
+				closeFailed := len(sim.Log) > 0 && strings.HasPrefix(sim.Log[len(sim.Log)-1], "close=")
+				if err != nil && !closeFailed {
 					fail("C17 close-error", "first Close returned %v", err)
+				}
+				if err == nil && closeFailed {
+					fail("C17 close-error-swallowed", "the socket's Close failed (%s) but AuditClient.Close returned nil", sim.Log[len(sim.Log)-1])
 				}
 			} else {
 				if len(sends) != 0 || sim.Receives != recvBefore || sim.Closes != closesBefore {
